@@ -398,7 +398,7 @@ func (g gen) chance(p float64) bool { return g.r.Rng.Float64() < p }
 
 func (g gen) nodeSpec(base int, wholeOnly bool) nodeSpec {
 	s := nodeSpec{cores: 1 + g.intn(8), share: base, memory: int64(1000 * (1 + g.intn(20)))}
-	if !wholeOnly && g.chance(0.2) {
+	if !wholeOnly && g.chance(0.4) {
 		s.share = []int{base / 2, base * 2, base + base/2, base}[g.intn(4)]
 	}
 	s.describe = "plain"
